@@ -43,6 +43,7 @@ var helperTExprs = [][2]string{
 	{"Plain", "S 2 A N int32 B N float64"},
 	{"Mid", "S 3 N N int32 P P N Plain V N Plain"},
 	{"NumBox", "S 2 L L N float64 M M N int32 N int32"},
+	{"Deep", "S 2 B N NumBox PB P N NumBox"},
 	{"NInt", "N int32"}, {"NUint", "N uint16"}, {"NFloat", "N float64"}, {"NBool", "N bool"}, {"NStr", "N string"},
 	{"NSlice", "L N int32"}, {"NMap", "M N string N int32"},
 }
